@@ -38,10 +38,11 @@ def cases(tier):
   for c in universe.graph_cases([(2, types, 'first', 'one')]):
     c['maxlen'] = 3 if tier == 'thorough' else 2
     yield c
-  if tier == 'thorough':
-    for c in universe.graph_cases([(3, eg.TTOPO, 'first', 'none')]):
-      c['maxlen'] = 2
-      yield c
+  # three operators: a dead intermediate exists, so the interpreter used for
+  # calibration must really preserve every tensor
+  for c in universe.graph_cases([(3, eg.TTOPO, 'first', 'none')]):
+    c['maxlen'] = 2 if tier == 'thorough' else 1
+    yield c
 
 
 MULTI_OPS = [('FULLY_CONNECTED', 'bias'), ('CONV_2D', '1x1'), ('MUL', 'tc'),
